@@ -97,7 +97,7 @@ def md_valid_name(layout: str, n: str) -> bool:
     for p in n.split('/'):
         if p in ('', '.', '..') or '/' in p:
             return False
-        if any(ord(c) < 32 or ord(c) == 127 for c in p):
+        if any(ord(c) < 32 or ord(c) == 127 or 0xd800 <= ord(c) <= 0xdfff for c in p):
             return False
         if layout == '++' and '.' in p:
             return False
@@ -334,6 +334,14 @@ def gen_program(rng, backend: str, initial) -> list:
                 advance(o)
             prog.append(('list', '', '*'))
             pool.append(n)
+            continue
+        if backend != 'dict' and rng.random() < 0.04:
+            # lone surrogates: no file name can hold them, maildir refuses them
+            n = rng.choice(['\ud83d', 'a\udc00', '\udfff/b', 'a/\ud800b'])
+            op = rng.choice([('create', n), ('subscribe', n), ('status', n), ('rename', 'a', n),
+                             ('delete', n), ('append', n), ('unsubscribe', n)])
+            prog.append(op)
+            prog.append(('list', '', '*'))
             continue
         if r < 0.30:
             n = gen_name(rng, pool if rng.random() < 0.3 else None, tame)
